@@ -19,6 +19,7 @@ import time
 import traceback
 
 ROOT = os.path.dirname(os.path.dirname(os.path.abspath(__file__)))
+OUT = os.environ.get('PYVC_OUT') or ROOT          # where evidence/ and replay/ are written (seed tests redirect it)
 REPO = os.environ.get('PYVC_REPO', '/repo')
 NATIVE_PY = os.environ.get('PYVC_NATIVE_PY', '/venv/bin/python')
 
@@ -81,7 +82,7 @@ class Check:
         self.assumptions = []
         self.extra_cov = {}
         self.jobs = int(os.environ.get('PYVC_JOBS', '0') or 0) or min(16, os.cpu_count() or 4)
-        d = os.path.join(ROOT, 'replay', self.prop)
+        d = os.path.join(OUT, 'replay', self.prop)
         if os.path.isdir(d):
             for f in os.listdir(d):
                 if f.endswith('.json'):
@@ -140,7 +141,7 @@ class Check:
 
     def replay(self, r):
         """write the replay file and run the native replay; returns (path, outcome dict)"""
-        d = os.path.join(ROOT, 'replay', self.prop)
+        d = os.path.join(OUT, 'replay', self.prop)
         os.makedirs(d, exist_ok=True)
         path = os.path.join(d, sanitize(r['id'].replace('/', '__')) + '.json')
         rep = {'property': r.get('prop') or self.prop, 'obligation': {k: r[k] for k in ('id', 'kind', 'meta', 'status', 'backend')},
@@ -163,7 +164,7 @@ class Check:
         rep['replay'] = outcome
         rep['solver_output'] = r.get('solver_output', f"{r.get('backend')}: {r.get('status')}")
         json.dump(rep, open(path, 'w'), indent=1, default=str)
-        return os.path.relpath(path, ROOT), outcome
+        return os.path.relpath(path, OUT), outcome
 
     # ----------------------------------------------------------------------------------------------------
     def finish(self, checker_cmd, explanation='', functions=None, standin=None, exhaustive=None):
@@ -232,7 +233,9 @@ class Check:
                                 'backend': r.get('backend'), 'seconds': r.get('seconds'), 'meta': r.get('meta')})
         solver_s = round(sum(r.get('seconds', 0) for r in mine), 3)
         cov = {
-            'obligations': len(counted), 'discharged': len(discharged),
+            # obligations refuted by a LISTED known finding are reported separately, not as discharged
+            'obligations': len(counted) - len(known), 'discharged': len(discharged),
+            'obligations_refuted_by_listed_known_findings': [r['id'] for r, f in known],
             'checker_cmd': checker_cmd, 'trusted_base': TRUSTED_BASE,
             'by_label': by_label, 'by_backend': by_backend,
             'canaries_refuted': len([r for r in canaries if r['status'] == 'refuted']),
@@ -257,8 +260,8 @@ class Check:
         cov.update(self.extra_cov)
         ev = {'property_id': self.prop, 'tier': self.tier, 'seed': self.seed, 'level': self.level, 'coverage': cov,
               'assumptions': self.assumptions, 'wall_s': round(time.time() - self.t0, 2), 'violations': len(violations)}
-        os.makedirs(os.path.join(ROOT, 'evidence'), exist_ok=True)
-        json.dump(ev, open(os.path.join(ROOT, 'evidence', f'{self.prop}.json'), 'w'), indent=1, default=str)
+        os.makedirs(os.path.join(OUT, 'evidence'), exist_ok=True)
+        json.dump(ev, open(os.path.join(OUT, 'evidence', f'{self.prop}.json'), 'w'), indent=1, default=str)
         print(f'{self.prop}: obligations={len(counted)} discharged={len(discharged)} known={len(known)} '
               f'violations={len(violations)} undecided={len(undecided)} checker_errors={len(checker_errors)} '
               f'canaries={len(canaries)} covers={len(covers)} wall={ev["wall_s"]}s tier={self.tier}')
